@@ -119,9 +119,24 @@ class DocGen:
         v = self.var('Boolean!', lambda: r.choice([True, False]))
         return f' @{d}(if: ${v})'
 
+    def off_arg(self):
+        """`if:` argument that switches @defer / @stream off (the only form a subscription may carry)."""
+        if self.r.random() < 0.7:
+            return 'if: false'
+        name = f'v{len(self.vars)}'
+        self.vars[name] = ('Boolean!', '', (True, False))
+        return f'if: ${name}'
+
     def frag_dirs(self, depth):
         r = self.r
         s = self.dirs()
+        if self.op == 'subscription' and r.random() < self.p_defer:
+            args = [self.off_arg()]
+            if r.random() < 0.5:
+                self.labels += 1
+                args.append(f'label: "d{self.labels}"')
+            r.shuffle(args)
+            return s + f' @defer({", ".join(args)})'
         if self.op != 'subscription' and r.random() < self.p_defer:
             args = []
             if r.random() < 0.7:
@@ -139,7 +154,18 @@ class DocGen:
 
     def stream_dir(self, list_type):
         r = self.r
-        if self.op == 'subscription' or r.random() >= self.p_stream:
+        if self.op == 'subscription':
+            if r.random() >= self.p_stream:
+                return ''
+            args = [self.off_arg()]
+            if r.random() < 0.5:
+                args.append(f'initialCount: {r.choice([0, 1, 2])}')
+            if r.random() < 0.4:
+                self.labels += 1
+                args.append(f'label: "s{self.labels}"')
+            r.shuffle(args)
+            return f' @stream({", ".join(args)})'
+        if r.random() >= self.p_stream:
             return ''
         args = []
         if r.random() < 0.7:
